@@ -2,12 +2,47 @@
 from __future__ import annotations
 
 from collections import Counter
-from typing import Any, Dict
+from typing import Any, Dict, List
 
 from .. import compare as cmp
 from ..core import Outcome, Prop
 from ..proj import norm
 from . import slices
+
+
+def against(exp: List[Dict[str, Any]], eager: Dict[str, Any], lazy: Dict[str, Any], with_col: bool) -> List[str]:
+    """compare the observed eager error / lazy report with one predicted error list"""
+    out: List[str] = []
+    d = cmp.errs_equal(exp, lazy["errors"], col=False)
+    if d:
+        out.append("lazy " + d)
+    if not cmp.err_in(eager["errors"][0], lazy["errors"]):
+        out.append("eager error %s is not among the lazy errors" % (cmp.nerr(eager["errors"][0], False),))
+    if exp and not cmp.err_in(eager["errors"][0], exp):
+        out.append("eager error %s is not predicted" % (cmp.nerr(eager["errors"][0], False),))
+    # consolidated report: one row per failing cell, one scalar row per violated frame-level constraint
+    want = Counter()
+    for e in exp:
+        col = norm(e["col"]) if with_col and "col" in e and e.get("ctx") != "Index" else None
+        if e["scalar"]:
+            want[(e["ci"], "scalar", ("na", 0), None)] += 1
+        for c in e["cases"]:
+            ccol = norm(c[2]) if with_col and len(c) > 2 else col
+            want[(e["ci"], norm(c[1]), norm(c[0]), ccol)] += 1
+    got = Counter()
+    for r in lazy["report"]["rows"]:
+        col = norm(r["column"]) if with_col and r["ctx"] != "Index" else None
+        if norm(r["index"]) == ("na", 0):
+            got[(r["cn"], "scalar", ("na", 0), None)] += 1
+        else:
+            got[(r["cn"], norm(r["case"]), norm(r["index"]), col)] += 1
+    if want != got:
+        out.append("failure_cases rows differ: missing=%s extra=%s"
+                   % (list((want - got).elements())[:3], list((got - want).elements())[:3]))
+    wc = Counter(e["reason"] for e in exp)
+    if dict(wc) != lazy["report"]["counts"]:
+        out.append("error_counts %s != predicted %s" % (lazy["report"]["counts"], dict(wc)))
+    return out
 
 
 def compare(vec: Dict[str, Any], obs: Dict[str, Any]) -> Outcome:
@@ -29,35 +64,16 @@ def compare(vec: Dict[str, Any], obs: Dict[str, Any]) -> Outcome:
     if "report_error" in lazy:
         oc.mismatches.append("lazy report could not be read: %s" % lazy["report_error"])
         return oc
-    col = vec["kind"] != "series"
-    d = cmp.errs_equal(exp, lazy["errors"], col=False)
-    if d:
-        oc.mismatches.append("lazy " + d)
-    if not cmp.err_in(eager["errors"][0], lazy["errors"]):
-        oc.mismatches.append("eager error %s is not among the lazy errors" % (cmp.nerr(eager["errors"][0], False),))
-    if exp and cmp.nerr(eager["errors"][0], False) != cmp.nerr(exp[0], False) and not vec.get("unordered"):
-        # the specification also predicts WHICH error the eager run raises: the first in pipeline order
-        if not cmp.err_in(eager["errors"][0], exp):
-            oc.mismatches.append("eager error %s is not predicted" % (cmp.nerr(eager["errors"][0], False),))
-    # consolidated report: one row per failing cell, one scalar row per violated frame-level constraint
-    want = Counter()
-    for e in exp:
-        if e["scalar"]:
-            want[(e["ci"], "scalar", ("na", 0))] += 1
-        for c in e["cases"]:
-            want[(e["ci"], norm(c[1]), norm(c[0]))] += 1
-    got = Counter()
-    for r in lazy["report"]["rows"]:
-        if norm(r["index"]) == ("na", 0):
-            got[(r["cn"], "scalar", ("na", 0))] += 1
-        else:
-            got[(r["cn"], norm(r["case"]), norm(r["index"]))] += 1
-    if want != got:
-        oc.mismatches.append("failure_cases rows differ: missing=%s extra=%s"
-                             % (list((want - got).elements())[:3], list((got - want).elements())[:3]))
-    wc = Counter(e["reason"] for e in exp)
-    if dict(wc) != lazy["report"]["counts"]:
-        oc.mismatches.append("error_counts %s != predicted %s" % (lazy["report"]["counts"], dict(wc)))
+    with_col = vec["kind"] != "series"
+    mism = against(exp, eager, lazy, with_col)
+    devs = vec["expect"].get("devs") or []
+    if mism and devs:
+        # the shipped code is predicted to deviate here: accept exactly the deviating prediction
+        m2 = against(vec["expect"]["errors_asis"], eager, lazy, with_col)
+        if not m2:
+            oc.known = list(devs)
+            mism = []
+    oc.mismatches = mism
     if exp:
         oc.sig = "%s|%s|%d" % (vec["kind"], ",".join(sorted("%s:%s:%d" % (e["reason"], e["ci"], len(e["cases"])) for e in exp)),
                                len(vec["data"].get("cells", vec["data"].get("idx", []))))
@@ -67,14 +83,15 @@ def compare(vec: Dict[str, Any], obs: Dict[str, Any]) -> Outcome:
 PROP = Prop(
     id="C02",
     title="Lazy and eager validation agree; the error report is exact",
-    slices=[slices.SERIES],
+    slices=[slices.SERIES] + slices.FRAME_SLICES,
     compare=compare,
     rule=("Every vector of the exhaustive slices is run eagerly and lazily; TLC predicts the full list of errors in "
-          "pipeline order with their failure cases (ReportExact, CasesAreViolations). Non-trivial = the specification "
-          "predicts at least one error; distinct = distinct multisets of (reason, check, number of cases) x length."),
+          "pipeline order with their failure cases (ReportExact, CasesAreViolations, ReportIsFunctional). Non-trivial = "
+          "the specification predicts at least one error; distinct = distinct multisets of (reason, check, number of "
+          "cases) x length."),
     assumptions=[
         "n_failure_cases=None for report exactness (truncation is C19)",
-        "failure cases are compared as multisets of (index label, value); messages are never compared",
+        "failure cases are compared as multisets of (column, index label, value); messages are never compared",
     ],
-    invariants=["ReportExact", "CasesAreViolations"],
+    invariants=["ReportExact", "CasesAreViolations", "ReportIsFunctional", "IdealAndAsIsAgreeOnVerdict"],
 )
